@@ -1,1 +1,101 @@
-From Util Require Import Common.Base Common.ListLemmas Routine.Model Routine.Proofs.
+(* C14 - routine: exit status, restart rules and back-off follow the documented machine.
+   Statements only.  The facts below are per-step: they hold from EVERY state of the gate-level model (hence along
+   every event list); those that need reachability say so ([run]).
+   Interpretation recorded in DESIGN.md: "returned nil / an error" means RECORDED as the exit of the current
+   instance by its bookkeeping section (an instance superseded between returning and recording is treated as
+   cancelled and its result dropped; the pinned suite relies on this). *)
+From Util Require Import Common.Base Common.ListLemmas Routine.Model Routine.Proofs Routine.ProofsC14.
+
+(* nothing but API calls and retry-timer callbacks can start an instance, change the routine or the context *)
+Theorem c14_passive_events_never_start : forall s e, passive e = true ->
+  ninst (step repaired s e) = ninst s /\ routine (step repaired s e) = routine s /\ kctx (step repaired s e) = kctx s.
+Proof. exact passive_no_spawn. Qed.
+Print Assumptions c14_passive_events_never_start.
+
+(* a routine recorded as successful is not re-run by SetContext, whatever the context and the restart flag *)
+Theorem c14_success_not_rerun_by_setcontext : forall variant cmp ncb script es c restart r,
+  let s := run repaired (init variant cmp ncb script) es in
+  routine s = Some r -> rsucc (getr s r) = true ->
+  ninst (fst (set_context repaired s c restart)) = ninst s.
+Proof.
+  intros v cm n sc es c restart r s Hr Hs. destruct (run_inv v cm n sc es) as [HI [_ [_ HW]]]. fold s in HI, HW.
+  apply (set_context_success_no_spawn s c restart r HI Hr); [|exact Hs]. unfold InvW in HW. now rewrite Hr in HW.
+Qed.
+Print Assumptions c14_success_not_rerun_by_setcontext.
+
+(* a routine recorded as failed is not re-run by SetContext without restart ... *)
+Theorem c14_error_not_rerun_by_setcontext_norestart : forall variant cmp ncb script es c r,
+  let s := run repaired (init variant cmp ncb script) es in
+  routine s = Some r -> is_nil (rerr (getr s r)) = false ->
+  ninst (fst (set_context repaired s c false)) = ninst s.
+Proof.
+  intros v cm n sc es c r s Hr He. destruct (run_inv v cm n sc es) as [HI _]. fold s in HI.
+  exact (set_context_error_no_spawn s c r HI Hr He).
+Qed.
+Print Assumptions c14_error_not_rerun_by_setcontext_norestart.
+
+(* ... and such a call leaves the record and every timer untouched: the pending retry survives (defect D4 repaired) *)
+Theorem c14_setcontext_norestart_keeps_pending_retry : forall s c r,
+  routine s = Some r -> is_nil (rerr (getr s r)) = false -> c <> 0 ->
+  let s' := fst (set_context repaired s c false) in
+  recs s' = recs s /\ timers s' = timers s /\ routine s' = routine s /\ kctx s' = c.
+Proof. exact set_context_error_keeps_retry. Qed.
+Print Assumptions c14_setcontext_norestart_keeps_pending_retry.
+
+(* the retry: once the clock passes the deadline the timer is fired, and its callback starts a new instance *)
+Theorem c14_retry_timer_fires : forall s d t x,
+  nth_error (timers s) t = Some x -> tst x = TArmed -> (tdead x <= clock s + d)%N ->
+  exists x', nth_error (timers (advance s d)) t = Some x' /\ tst x' = TFired /\ trec x' = trec x.
+Proof. exact advance_fires. Qed.
+Theorem c14_retry_callback_restarts : forall s t x r,
+  nth_error (timers s) t = Some x -> tst x = TFired -> trec x = r ->
+  routine s = Some r -> kctx s <> 0 -> rexited (getr s r) = true -> rretry (getr s r) = Some t -> rfn (getr s r) <> 0 ->
+  ninst (timer_cb repaired s t) = S (ninst s).
+Proof. exact timer_cb_restarts. Qed.
+Print Assumptions c14_retry_callback_restarts.
+
+(* what a bookkeeping section records for a current instance: error, success flag, exited; the back-off index is
+   reset by a success and advanced by a failure of the container's current routine *)
+Theorem c14_bookkeeping_records_exit_and_backoff : forall s i x o,
+  nth_error (insts s) i = Some x -> ipcv x = IBook o -> rctx (getr s (irec x)) = Some i -> irec x < length (recs s) ->
+  let y := getr (bookkeep s i) (irec x) in
+  rerr y = o /\ rsucc y = is_nil o /\ rexited y = true /\ rexit y = None /\
+  (forall l k, bo s = Some (l, k) ->
+     bo (bookkeep s i) = Some (l, if is_nil o then 0 else if match routine s with Some r' => Nat.eqb r' (irec x) | None => false end then S k else k)).
+Proof. exact bookkeep_records. Qed.
+Print Assumptions c14_bookkeeping_records_exit_and_backoff.
+
+(* exit callbacks: called by bookkeeping sections only; each of them exactly once with the instance's own outcome
+   when the instance is still its record's current one, not at all otherwise *)
+Theorem c14_exit_callbacks_only_from_bookkeeping : forall s e, (forall i, e <> EBook i) -> cblog (step repaired s e) = cblog s.
+Proof. exact cblog_only_bookkeep. Qed.
+Theorem c14_exit_callbacks_once_per_current_exit : forall s i x o,
+  nth_error (insts s) i = Some x -> ipcv x = IBook o ->
+  cblog (bookkeep s i) = if (match rctx (getr s (irec x)) with Some j => Nat.eqb j i | None => false end)
+                         then cblog s ++ repeat o (ncb s) else cblog s.
+Proof. exact bookkeep_reports. Qed.
+Print Assumptions c14_exit_callbacks_once_per_current_exit.
+
+(* WaitExited returns the recorded status of the CURRENT record (which only the bookkeeping of that record's current
+   instance writes, see above), nil when asked to return if nothing runs, or Canceled if its own context is cancelled *)
+Theorem c14_waitexited_reports_current_record : forall s a w o,
+  nth_error (waiters s) a = Some w -> wpcv w = WGate ->
+  wpcv (nth a (waiters (wait_section s a)) waiter0) = WRet o ->
+  (exists r, routine s = Some r /\ kctx s <> 0 /\ (rexited (getr s r) = true \/ rsucc (getr s r) = true) /\ o = rerr (getr s r))
+  \/ (wrinr w = true /\ (routine s = None \/ kctx s = 0) /\ o = ONil)
+  \/ (wcanc w = true /\ o = OCanc).
+Proof. exact wait_section_result. Qed.
+Print Assumptions c14_waitexited_reports_current_record.
+
+(* non-vacuity: error exit with back-off [100;200]: retry after 100, success resets the index *)
+Example c14_example_retry :
+  let s := run repaired (init false 1 1 (Some [100; 200]%N))
+             [ESetCtx 1 false; ESetRoutine 1; EProceed 0 true; EReturn 0 (OErr 0); EBook 0; ESetCtx 2 false; EAdvance 100; ETimerCb 0;
+              EProceed 1 true] in
+  length (insts s) = 2 /\ in_user (geti s 1) = true /\ iroot (geti s 1) = 2 /\ bo s = Some ([100; 200]%N, 1) /\ cblog s = [OErr 0].
+Proof. vm_compute. repeat split; reflexivity. Qed.
+Example c14_example_success_final :
+  let s := run repaired (init false 1 1 (Some [100]%N))
+             [ESetCtx 1 false; ESetRoutine 1; EProceed 0 true; EReturn 0 ONil; EBook 0; ESetCtx 2 true; EAdvance 1000] in
+  length (insts s) = 1 /\ rsucc (getr s 0) = true /\ bo s = Some ([100]%N, 0).
+Proof. vm_compute. repeat split; reflexivity. Qed.
